@@ -1,7 +1,8 @@
 ------------------------------- MODULE Runner -------------------------------
 (***************************************************************************)
 (* Implementation-shaped specification of repid._runner._Runner +          *)
-(* Worker.run over one queue of an in-memory-like broker, one action per   *)
+(* Worker.run over NQ queues (one consumer and one consumer loop per       *)
+(* queue, all sharing the slots and the messages budget), one action per   *)
 (* event-loop step that changes the state the properties talk about:       *)
 (*   consumer      : (brokers with prefetch) fetch: the message is marked  *)
 (*                   in flight -> it is put into the consumer's local      *)
@@ -39,44 +40,56 @@
 (***************************************************************************)
 EXTENDS Integers, Sequences, FiniteSets, TLC
 CONSTANTS Msgs,         \* message ids (positive integers)
+          NQ,           \* model checking: number of queues (message m waits in queue ((m - 1) % NQ) + 1)
           TL, ML, MaxRetries,   \* model checking: tasks limit, messages limit (0: none), retries of every message
           Late,         \* model checking: TRUE = any subset of the messages arrives while the worker runs
           Repaired,
+          BudgetCheck,  \* "after_slot": the budget is checked once the slot is held, in the step that starts the task (the code);
+                        \* "before_slot": checked before waiting for a slot and not again (a plausible reordering: TLC shows it overshoots)
           Prefetch,     \* 0: consume() takes from the broker itself (in-memory); n > 0: a background fetch keeps up to n messages in a local queue
           FinishMode    \* "taken" | "local", see above
 
-VARIABLES wc,                                \* configuration [tl, ml, maxr : Msgs -> Nat] (never changes)
+VARIABLES wc,                                \* configuration [tl, ml, maxr : Msgs -> Nat, qof : Msgs -> queue, nq] (never changes)
           pool,                              \* messages not yet enqueued
-          q, proc, dead, acked, tried,      \* broker: waiting sequence, in flight, dead, acknowledged, attempt counters
-          cl, clm,                           \* consumer loop: pc, message in hand
-          fetch, lq, hand,                   \* consumer: message being fetched, local queue, message returned by the inner consume task
+          q, proc, dead, acked, tried,      \* broker: waiting sequence per queue, in flight, dead, acknowledged, attempt counters
+          cl, clm,                           \* per queue, consumer loop: pc, message in hand
+          fetch, lq, hand,                   \* per queue, consumer: message being fetched, local queue, message returned by the inner consume task
+          fin,                               \* per queue: the consumer has been finished
           sem, tpc, out,                     \* free slots; per message: task pc, outcome
           processed, started, running,
           stop, cancel, phase
-vars == <<wc, pool, q, proc, dead, acked, tried, cl, clm, fetch, lq, hand, sem, tpc, out, processed, started, running, stop, cancel, phase>>
+vars == <<wc, pool, q, proc, dead, acked, tried, cl, clm, fetch, lq, hand, fin, sem, tpc, out, processed, started, running, stop, cancel, phase>>
 None == 0
+QMAX == 3
+Qs == 1..wc.nq
 Perms(S) == {t \in [1..Cardinality(S) -> S] : \A a, b \in DOMAIN t : a # b => t[a] # t[b]}
 Rm(s, m) == SelectSeq(s, LAMBDA y : y # m)
-InQ(m) == \E k \in 1..Len(q) : q[k] = m
+InSeq(s, m) == \E k \in 1..Len(s) : s[k] = m
+InQ(m) == InSeq(q[wc.qof[m]], m)
+OfQueue(S, k) == {m \in S : wc.qof[m] = k}
 
 InitWith(cfg, late) ==
-        /\ wc = cfg /\ pool = late /\ q \in Perms(Msgs \ late)
+        /\ wc = cfg /\ pool = late
+        /\ \E p1 \in Perms({m \in Msgs \ late : cfg.qof[m] = 1}), p2 \in Perms({m \in Msgs \ late : cfg.qof[m] = 2}),
+              p3 \in Perms({m \in Msgs \ late : cfg.qof[m] = 3}) : q = <<p1, p2, p3>>
         /\ proc = {} /\ dead = {} /\ acked = {} /\ tried = [m \in Msgs |-> 0]
-        /\ cl = "consume" /\ clm = None /\ sem = cfg.tl /\ fetch = None /\ lq = <<>> /\ hand = None
+        /\ cl = [k \in 1..QMAX |-> IF k <= cfg.nq THEN "consume" ELSE "ended"] /\ clm = [k \in 1..QMAX |-> None]
+        /\ sem = cfg.tl /\ fetch = [k \in 1..QMAX |-> None] /\ lq = [k \in 1..QMAX |-> <<>>] /\ hand = [k \in 1..QMAX |-> None]
+        /\ fin = [k \in 1..QMAX |-> k > cfg.nq]
         /\ tpc = [m \in Msgs |-> "none"] /\ out = [m \in Msgs |-> "ok"]
         /\ processed = 0 /\ started = 0 /\ running = 0
         /\ stop = FALSE /\ cancel = FALSE /\ phase = "run"
 Init == \E late \in (IF Late THEN SUBSET Msgs ELSE {{}}) :
-            InitWith([tl |-> TL, ml |-> ML, maxr |-> [m \in Msgs |-> MaxRetries]], late)
+            InitWith([tl |-> TL, ml |-> ML, maxr |-> [m \in Msgs |-> MaxRetries], qof |-> [m \in Msgs |-> ((m - 1) % NQ) + 1], nq |-> NQ], late)
 
 OverBudget(s) == wc.ml > 0 /\ wc.ml - processed - (wc.tl - s) < 0      \* with s free slots
 BudgetUsed(s) == wc.ml > 0 /\ wc.ml - processed - (wc.tl - s) <= 0     \* what max_tasks_hit computes
 
 U(vs) == UNCHANGED vs
-Arrive(m) == /\ m \in pool /\ pool' = pool \ {m} /\ q' = Append(q, m)
-             /\ U(<<wc, proc, dead, acked, tried, cl, clm, fetch, lq, hand, sem, tpc, out, processed, started, running, stop, cancel, phase>>)
+Arrive(m) == /\ m \in pool /\ pool' = pool \ {m} /\ q' = [q EXCEPT ![wc.qof[m]] = Append(@, m)]
+             /\ U(<<wc, proc, dead, acked, tried, cl, clm, fetch, lq, hand, fin, sem, tpc, out, processed, started, running, stop, cancel, phase>>)
 StopRequest == /\ ~stop /\ phase = "run" /\ stop' = TRUE
-               /\ U(<<wc, pool, q, proc, dead, acked, tried, cl, clm, fetch, lq, hand, sem, tpc, out, processed, started, running, cancel, phase>>)
+               /\ U(<<wc, pool, q, proc, dead, acked, tried, cl, clm, fetch, lq, hand, fin, sem, tpc, out, processed, started, running, cancel, phase>>)
 
 (* A stop request is not noticed at once: the event wakes run_one_queue, which cancels the consume task, which sees the  *)
 (* cancellation at its next await -- in between the consumer loop goes on (take, resume, slot, spawn): its actions are     *)
@@ -84,92 +97,112 @@ StopRequest == /\ ~stop /\ phase = "run" /\ stop' = TRUE
 (* in-memory: consume() takes a waiting message itself (the head of the queue; a trace names it); its inner task returns it *)
 \* (tasks are keyed by message: a message is not taken again before the done-callback of its previous task has run --
 \*  the callback is scheduled in the loop step that ends the task, a new take needs several steps)
-CL_TakeM(m) == /\ Prefetch = 0 /\ cl = "consume" /\ InQ(m) /\ tpc[m] = "none"
-               /\ proc' = proc \cup {m} /\ hand' = m /\ q' = Rm(q, m) /\ cl' = "handing"
-               /\ U(<<wc, pool, dead, acked, tried, clm, fetch, lq, sem, tpc, out, processed, started, running, stop, cancel, phase>>)
-CL_Take == q # <<>> /\ CL_TakeM(Head(q))
+CL_TakeM(m) == LET k == wc.qof[m] IN
+               /\ Prefetch = 0 /\ cl[k] = "consume" /\ InQ(m) /\ tpc[m] = "none"
+               /\ proc' = proc \cup {m} /\ hand' = [hand EXCEPT ![k] = m] /\ q' = [q EXCEPT ![k] = Rm(@, m)]
+               /\ cl' = [cl EXCEPT ![k] = "handing"]
+               /\ U(<<wc, pool, dead, acked, tried, clm, fetch, lq, fin, sem, tpc, out, processed, started, running, stop, cancel, phase>>)
+CL_Take(k) == q[k] # <<>> /\ CL_TakeM(Head(q[k]))
 (* brokers with prefetch: the background fetch marks a message in flight, then puts it into the local queue *)
-C_FetchM(m) == /\ Prefetch > 0 /\ fetch = None /\ Len(lq) < Prefetch /\ InQ(m) /\ phase # "ret" /\ tpc[m] = "none"
-               /\ proc' = proc \cup {m} /\ fetch' = m /\ q' = Rm(q, m)
-               /\ U(<<wc, pool, dead, acked, tried, cl, clm, lq, hand, sem, tpc, out, processed, started, running, stop, cancel, phase>>)
-C_Fetch == q # <<>> /\ C_FetchM(Head(q))
-C_Local == /\ fetch # None /\ phase # "ret" /\ lq' = Append(lq, fetch) /\ fetch' = None
-           /\ U(<<wc, pool, q, proc, dead, acked, tried, cl, clm, hand, sem, tpc, out, processed, started, running, stop, cancel, phase>>)
-CL_Get == /\ Prefetch > 0 /\ cl = "consume" /\ lq # <<>>
-          /\ hand' = Head(lq) /\ lq' = Tail(lq) /\ cl' = "handing"
-          /\ U(<<wc, pool, q, proc, dead, acked, tried, clm, fetch, sem, tpc, out, processed, started, running, stop, cancel, phase>>)
+C_FetchM(m) == LET k == wc.qof[m] IN
+               /\ Prefetch > 0 /\ fetch[k] = None /\ Len(lq[k]) < Prefetch /\ InQ(m) /\ ~fin[k] /\ tpc[m] = "none"
+               /\ proc' = proc \cup {m} /\ fetch' = [fetch EXCEPT ![k] = m] /\ q' = [q EXCEPT ![k] = Rm(@, m)]
+               /\ U(<<wc, pool, dead, acked, tried, cl, clm, lq, hand, fin, sem, tpc, out, processed, started, running, stop, cancel, phase>>)
+C_Fetch(k) == q[k] # <<>> /\ C_FetchM(Head(q[k]))
+C_Local(k) == /\ fetch[k] # None /\ ~fin[k] /\ lq' = [lq EXCEPT ![k] = Append(@, fetch[k])] /\ fetch' = [fetch EXCEPT ![k] = None]
+              /\ U(<<wc, pool, q, proc, dead, acked, tried, cl, clm, hand, fin, sem, tpc, out, processed, started, running, stop, cancel, phase>>)
+CL_Get(k) == /\ Prefetch > 0 /\ cl[k] = "consume" /\ lq[k] # <<>>
+             /\ hand' = [hand EXCEPT ![k] = Head(lq[k])] /\ lq' = [lq EXCEPT ![k] = Tail(@)] /\ cl' = [cl EXCEPT ![k] = "handing"]
+             /\ U(<<wc, pool, q, proc, dead, acked, tried, clm, fetch, fin, sem, tpc, out, processed, started, running, stop, cancel, phase>>)
 (* the consumer loop resumes with the message *)
-CL_Resume == /\ cl = "handing" /\ clm' = hand /\ hand' = None /\ cl' = "got"
-             /\ U(<<wc, pool, q, proc, dead, acked, tried, fetch, lq, sem, tpc, out, processed, started, running, stop, cancel, phase>>)
+CL_Resume(k) == /\ cl[k] = "handing" /\ clm' = [clm EXCEPT ![k] = hand[k]] /\ hand' = [hand EXCEPT ![k] = None]
+                /\ cl' = [cl EXCEPT ![k] = "got"]
+                /\ U(<<wc, pool, q, proc, dead, acked, tried, fetch, lq, fin, sem, tpc, out, processed, started, running, stop, cancel, phase>>)
 (* acquire a slot (possibly after waiting), then the budget check of the repaired code, then spawn *)
-CL_Wait == /\ cl = "got" /\ sem = 0 /\ cl' = "wait"
-           /\ U(<<wc, pool, q, proc, dead, acked, tried, clm, fetch, lq, hand, sem, tpc, out, processed, started, running, stop, cancel, phase>>)
+CL_Wait(k) == /\ cl[k] = "got" /\ sem = 0 /\ cl' = [cl EXCEPT ![k] = "wait"]
+              /\ (BudgetCheck = "before_slot" /\ Repaired) => ~BudgetUsed(sem)
+              /\ U(<<wc, pool, q, proc, dead, acked, tried, clm, fetch, lq, hand, fin, sem, tpc, out, processed, started, running, stop, cancel, phase>>)
 \* over budget: the slot is released again, the message rejected, consumption stopped
-CL_OverBudget == /\ cl \in {"got", "wait"} /\ sem > 0 /\ Repaired /\ OverBudget(sem - 1)
-                 /\ q' = Append(q, clm) /\ proc' = proc \ {clm} /\ stop' = TRUE /\ cl' = "ended" /\ clm' = None
-                 /\ U(<<wc, pool, dead, acked, tried, fetch, lq, hand, sem, tpc, out, processed, started, running, cancel, phase>>)
-CL_Spawn == /\ cl \in {"got", "wait"} /\ sem > 0 /\ ~(Repaired /\ OverBudget(sem - 1))
-            /\ sem' = sem - 1 /\ tpc' = [tpc EXCEPT ![clm] = "spawned"] /\ clm' = None
-            /\ IF Repaired /\ BudgetUsed(sem - 1)
-               THEN stop' = TRUE /\ cl' = "ended"             \* budget used up: stop consuming now
-               ELSE cl' = "consume" /\ U(<<stop>>)
-            /\ U(<<wc, pool, q, proc, dead, acked, tried, fetch, lq, hand, out, processed, started, running, cancel, phase>>)
-CL_Acquire == CL_Wait \/ CL_OverBudget \/ CL_Spawn
+CL_OverBudget(k) ==
+    /\ Repaired
+    /\ IF BudgetCheck = "after_slot" THEN cl[k] \in {"got", "wait"} /\ sem > 0 /\ OverBudget(sem - 1)
+                                      ELSE cl[k] = "got" /\ BudgetUsed(sem)
+    /\ q' = [q EXCEPT ![k] = Append(@, clm[k])] /\ proc' = proc \ {clm[k]} /\ stop' = TRUE
+    /\ cl' = [cl EXCEPT ![k] = "ended"] /\ clm' = [clm EXCEPT ![k] = None]
+    /\ U(<<wc, pool, dead, acked, tried, fetch, lq, hand, fin, sem, tpc, out, processed, started, running, cancel, phase>>)
+CL_Spawn(k) ==
+    /\ cl[k] \in {"got", "wait"} /\ sem > 0
+    /\ IF BudgetCheck = "after_slot" THEN ~(Repaired /\ OverBudget(sem - 1))
+                                      ELSE (cl[k] = "got" /\ Repaired) => ~BudgetUsed(sem)
+    /\ sem' = sem - 1 /\ tpc' = [tpc EXCEPT ![clm[k]] = "spawned"] /\ clm' = [clm EXCEPT ![k] = None]
+    /\ IF Repaired /\ BudgetUsed(sem - 1)
+       THEN stop' = TRUE /\ cl' = [cl EXCEPT ![k] = "ended"]             \* budget used up: stop consuming now
+       ELSE cl' = [cl EXCEPT ![k] = "consume"] /\ U(<<stop>>)
+    /\ U(<<wc, pool, q, proc, dead, acked, tried, fetch, lq, hand, fin, out, processed, started, running, cancel, phase>>)
+CL_Acquire(k) == CL_Wait(k) \/ CL_OverBudget(k) \/ CL_Spawn(k)
 (* consumption stopped: the consume task is cancelled; a message in hand is given back (repair ee8c893) *)
-CL_Cancel == /\ stop /\ cl \in {"consume", "handing", "got", "wait"}
-             /\ IF clm # None /\ Repaired
-                THEN q' = Append(q, clm) /\ proc' = proc \ {clm}
-                ELSE U(<<q, proc>>)
-             \* (a message the inner consume task has returned but the loop has not resumed with is dropped: nobody holds it)
-             /\ cl' = "ended" /\ clm' = None /\ hand' = None
-             /\ U(<<wc, pool, dead, acked, tried, fetch, lq, sem, tpc, out, processed, started, running, stop, cancel, phase>>)
+CL_Cancel(k) ==
+    /\ stop /\ cl[k] \in {"consume", "handing", "got", "wait"}
+    /\ IF clm[k] # None /\ Repaired
+       THEN q' = [q EXCEPT ![k] = Append(@, clm[k])] /\ proc' = proc \ {clm[k]}
+       ELSE U(<<q, proc>>)
+    \* (a message the inner consume task has returned but the loop has not resumed with is dropped: nobody holds it)
+    /\ cl' = [cl EXCEPT ![k] = "ended"] /\ clm' = [clm EXCEPT ![k] = None] /\ hand' = [hand EXCEPT ![k] = None]
+    /\ U(<<wc, pool, dead, acked, tried, fetch, lq, fin, sem, tpc, out, processed, started, running, stop, cancel, phase>>)
 
 T_Start(m) == /\ tpc[m] = "spawned" /\ ~cancel
               /\ tpc' = [tpc EXCEPT ![m] = "running"] /\ started' = started + 1 /\ running' = running + 1
               /\ \E o \in {"ok", "fail"} : out' = [out EXCEPT ![m] = o]
-              /\ U(<<wc, pool, q, proc, dead, acked, tried, cl, clm, fetch, lq, hand, sem, processed, stop, cancel, phase>>)
+              /\ U(<<wc, pool, q, proc, dead, acked, tried, cl, clm, fetch, lq, hand, fin, sem, processed, stop, cancel, phase>>)
 T_End(m) == /\ tpc[m] = "running" /\ tpc' = [tpc EXCEPT ![m] = "report"] /\ running' = running - 1
-            /\ U(<<wc, pool, q, proc, dead, acked, tried, cl, clm, fetch, lq, hand, sem, out, processed, started, stop, cancel, phase>>)
+            /\ U(<<wc, pool, q, proc, dead, acked, tried, cl, clm, fetch, lq, hand, fin, sem, out, processed, started, stop, cancel, phase>>)
 (* ack / nack / requeue are single atomic steps of the (repaired) in-memory broker *)
 T_Report(m) ==
     /\ tpc[m] = "report" /\ m \in proc
     /\ CASE out[m] = "ok" -> proc' = proc \ {m} /\ acked' = acked \cup {m} /\ U(<<q, dead, tried>>)
          [] out[m] = "fail" /\ tried[m] < wc.maxr[m] ->
-                 proc' = proc \ {m} /\ q' = Append(q, m) /\ tried' = [tried EXCEPT ![m] = @ + 1] /\ U(<<dead, acked>>)
+                 proc' = proc \ {m} /\ q' = [q EXCEPT ![wc.qof[m]] = Append(@, m)] /\ tried' = [tried EXCEPT ![m] = @ + 1] /\ U(<<dead, acked>>)
          [] OTHER -> proc' = proc \ {m} /\ dead' = dead \cup {m} /\ U(<<q, acked, tried>>)
     /\ tpc' = [tpc EXCEPT ![m] = "cb"]
-    /\ U(<<wc, pool, cl, clm, fetch, lq, hand, sem, out, processed, started, running, stop, cancel, phase>>)
+    /\ U(<<wc, pool, cl, clm, fetch, lq, hand, fin, sem, out, processed, started, running, stop, cancel, phase>>)
 (* forced cancellation: the task is cancelled wherever it is, its message rejected (if still held) *)
 T_Cancel(m) == /\ cancel /\ tpc[m] \in {"spawned", "running", "report"}
                /\ running' = IF tpc[m] = "running" THEN running - 1 ELSE running
-               /\ IF m \in proc THEN proc' = proc \ {m} /\ q' = Append(q, m) ELSE U(<<proc, q>>)
+               /\ IF m \in proc THEN proc' = proc \ {m} /\ q' = [q EXCEPT ![wc.qof[m]] = Append(@, m)] ELSE U(<<proc, q>>)
                /\ tpc' = [tpc EXCEPT ![m] = "cb"]
-               /\ U(<<wc, pool, dead, acked, tried, cl, clm, fetch, lq, hand, sem, out, processed, started, stop, cancel, phase>>)
+               /\ U(<<wc, pool, dead, acked, tried, cl, clm, fetch, lq, hand, fin, sem, out, processed, started, stop, cancel, phase>>)
 T_Callback(m) == /\ tpc[m] = "cb" /\ sem' = sem + 1 /\ processed' = processed + 1
                  /\ tpc' = [tpc EXCEPT ![m] = IF m \in acked \/ m \in dead THEN "done" ELSE "none"]
                  /\ stop' = (stop \/ (wc.ml > 0 /\ wc.ml - (processed + 1) - (wc.tl - (sem + 1)) <= 0))
-                 /\ U(<<wc, pool, q, proc, dead, acked, tried, cl, clm, fetch, lq, hand, out, started, running, cancel, phase>>)
+                 /\ U(<<wc, pool, q, proc, dead, acked, tried, cl, clm, fetch, lq, hand, fin, out, started, running, cancel, phase>>)
 
 Active == {m \in Msgs : tpc[m] \in {"spawned", "running", "report", "cb"}}
-(* finish_gracefully: all tasks done, or the graceful period is over (either may happen) -> cancel event *)
-FG == /\ phase = "run" /\ cl = "ended" /\ phase' = "fin" /\ cancel' = TRUE
-      /\ U(<<wc, pool, q, proc, dead, acked, tried, cl, clm, fetch, lq, hand, sem, tpc, out, processed, started, running, stop>>)
-(* consumers' finish(): what the consumer took and nobody settled goes back.  Worker.run() does not wait for the  *)
-(* tasks it has just cancelled: finish() may run while they are still rejecting their messages (a message that     *)
-(* finish() has already returned is then no longer held: that reject finds nothing to do)                           *)
-ConsFinish == /\ phase = "fin" /\ phase' = "ret"
-              /\ IF FinishMode = "taken"
-                 THEN /\ \E s \in Perms(proc) : q' = q \o s
-                      /\ proc' = {}
-                 ELSE \* only what is in the local queue; the fetch under way is cancelled where it is
-                      /\ q' = q \o lq /\ proc' = proc \ {lq[k] : k \in 1..Len(lq)}
-              /\ lq' = <<>> /\ fetch' = None
-              /\ U(<<wc, pool, dead, acked, tried, cl, clm, hand, sem, tpc, out, processed, started, running, stop, cancel>>)
-Next == StopRequest \/ CL_Take \/ C_Fetch \/ C_Local \/ CL_Get \/ CL_Resume \/ CL_Acquire \/ CL_Cancel \/ FG \/ ConsFinish
+(* finish_gracefully: every consumer loop has ended; all tasks done, or the graceful period is over (either may happen) -> cancel event *)
+FG == /\ phase = "run" /\ \A k \in Qs : cl[k] = "ended"
+      /\ phase' = "fin" /\ cancel' = TRUE
+      /\ U(<<wc, pool, q, proc, dead, acked, tried, cl, clm, fetch, lq, hand, fin, sem, tpc, out, processed, started, running, stop>>)
+(* a consumer's finish(): what it took and nobody settled goes back.  Worker.run() does not wait for the tasks it has   *)
+(* just cancelled: finish() may run while they are still rejecting their messages (a message that finish() has already  *)
+(* returned is then no longer held: that reject finds nothing to do)                                                     *)
+ConsFinish(k) ==
+    /\ phase = "fin" /\ ~fin[k] /\ fin' = [fin EXCEPT ![k] = TRUE]
+    /\ IF FinishMode = "taken"
+       THEN /\ \E s \in Perms(OfQueue(proc, k)) : q' = [q EXCEPT ![k] = @ \o s]
+            /\ proc' = proc \ OfQueue(proc, k)
+       ELSE \* only what is in the local queue; the fetch under way is cancelled where it is
+            /\ q' = [q EXCEPT ![k] = @ \o lq[k]] /\ proc' = proc \ {lq[k][j] : j \in 1..Len(lq[k])}
+    /\ lq' = [lq EXCEPT ![k] = <<>>] /\ fetch' = [fetch EXCEPT ![k] = None]
+    /\ U(<<wc, pool, dead, acked, tried, cl, clm, hand, sem, tpc, out, processed, started, running, stop, cancel, phase>>)
+Return == /\ phase = "fin" /\ \A k \in 1..QMAX : fin[k]
+          /\ phase' = "ret"
+          /\ U(<<wc, pool, q, proc, dead, acked, tried, cl, clm, fetch, lq, hand, fin, sem, tpc, out, processed, started, running, stop, cancel>>)
+Next == StopRequest \/ FG \/ Return
+        \/ \E k \in Qs : CL_Take(k) \/ C_Fetch(k) \/ C_Local(k) \/ CL_Get(k) \/ CL_Resume(k) \/ CL_Acquire(k) \/ CL_Cancel(k) \/ ConsFinish(k)
         \/ \E m \in Msgs : Arrive(m) \/ T_Start(m) \/ T_End(m) \/ T_Report(m) \/ T_Cancel(m) \/ T_Callback(m)
 Spec == Init /\ [][Next]_vars
 
-Count(m) == Cardinality({k \in 1..Len(q) : q[k] = m}) + (IF m \in proc THEN 1 ELSE 0)
+CountQ(m) == Cardinality({j \in 1..Len(q[wc.qof[m]]) : q[wc.qof[m]][j] = m})
+Count(m) == CountQ(m) + (IF m \in proc THEN 1 ELSE 0)
             + (IF m \in dead THEN 1 ELSE 0) + (IF m \in acked THEN 1 ELSE 0) + (IF m \in pool THEN 1 ELSE 0)
 Conservation == \A m \in Msgs : Count(m) = 1                     \* C01/C03 at every step
 RunningBound == running <= wc.tl                                   \* C09
@@ -177,5 +210,6 @@ StartedBound == wc.ml > 0 => started <= wc.ml                      \* C10
 AtReturn == (phase = "ret" /\ Active = {}) => (proc = {} /\ \A m \in Msgs : Count(m) = 1)      \* C03 (once the cancelled tasks are through)
 TriedBound == \A m \in Msgs : tried[m] <= wc.maxr[m]             \* C04
 SlotsSound == sem >= 0 /\ sem <= wc.tl /\ Cardinality(Active) = wc.tl - sem     \* the semaphore counts the tasks
+OwnQueue == \A k \in 1..QMAX : \A j \in 1..Len(q[k]) : wc.qof[q[k][j]] = k          \* a message never changes queue
 Bounded == processed <= 8 /\ started <= 8
 =============================================================================
